@@ -430,6 +430,22 @@ impl Discret {
     }
 }
 
+///
+/// verification hooks: accessors for the external monitoring harness
+///
+#[cfg(feature = "verif")]
+impl Discret {
+    pub fn verif_services(&self) -> &DiscretServices {
+        &self.services
+    }
+    pub fn verif_peers(&self) -> &PeerConnectionService {
+        &self.peers
+    }
+    pub fn verif_params(&self) -> &DiscretParams {
+        &self.params
+    }
+}
+
 struct BlockingRuntime {
     rt: Option<Runtime>,
 }
